@@ -449,82 +449,12 @@ def empirical_rules(prog, chk, tier="quick"):
                    key="C18e|%s|%d" % (name, len(Z)))
     chk.floor("C18e", n, 4)
 
-def _root_name(e):
-    while e is not None and (e["k"] in ("Cast", "Index", "Paren") or (e["k"] == "OpCall" and e.get("op") == "[]")):
-        e = e["c"][0]
-    if e is None:
-        return None
-    if e["k"] == "DeclRefExpr":
-        return ("L", e.get("d"), e["n"])
-    if e["k"] == "MemberExpr" and e.get("mk") == "field":
-        return ("F", e["n"], e["n"])
-    return None
-
-
 def stats_rules(prog, chk):
     """C18g - the statistics that define a transform (means, variances, covariances of the PCA / MAF) divide each sum by the count of the
-    samples that entered it: inside one loop, a sum `S += ..` and the counter `n++` it is later divided by stand behind the same
-    `if (..) continue;` guards.  A counter incremented before (or after) a guard that the sum obeys counts other samples than the sum
-    holds: the factors are no longer centred / of unit variance.
+    samples that entered it (c05_skip.guard_agreement_rule: sum and counter updated behind the same `continue` guards).
     C18f - copy constructor and assignment of the transform classes agree on every member (copyrule.py)."""
-    n = 0
-    for f in sorted(prog.funcs, key=lambda x: (x.file, x.line)):
-        if f.body is None or not f.file.endswith(("src/Stats/PCA.cpp", "src/Anamorphosis/AnamHermite.cpp", "src/Anamorphosis/AnamEmpirical.cpp")):
-            continue
-        for L in f.walk():
-            if L["k"] != "For" or len(L["c"]) < 4 or L["c"][3] is None:
-                continue
-            body = L["c"][3]
-            stmts = body["c"] if body["k"] == "Block" else [body]
-            guards_before = []       # (statement index, condition text) of top-level `if (c) continue;`
-            upd = {}                 # name key -> (kind, guards, node)
-            seen = []
-            for st in stmts:
-                if st is None:
-                    continue
-                if st["k"] == "If":
-                    cnd, then = st["c"][-3], st["c"][-2]
-                    leaves = then is not None and (then["k"] == "Continue" or (then["k"] == "Block" and any(y is not None and y["k"] == "Continue" for y in then["c"])))
-                    if leaves and st["c"][-1] is None:
-                        seen.append(show(cnd))
-                        continue
-                for x in walk(st):
-                    if x["k"] == "UnOp" and (x.get("op") or "").replace("post", "") == "++":
-                        k_ = _root_name(x["c"][0])
-                        if k_ and k_[0] == "L":
-                            upd.setdefault(k_, ("count", tuple(seen), x))
-                    elif x["k"] == "Assign" and x.get("op") == "+=":
-                        k_ = _root_name(x["c"][0])
-                        if k_:
-                            upd.setdefault(k_, ("sum", tuple(seen), x))
-            counters = {k_: v for k_, v in upd.items() if v[0] == "count"}
-            sums = {k_: v for k_, v in upd.items() if v[0] == "sum"}
-            if not counters or not sums:
-                continue
-            # quotients sum / counter anywhere in the function
-            for x in f.walk():
-                num = den = None
-                if x["k"] == "BinOp" and x.get("op") == "/":
-                    num, den = x["c"][0], x["c"][1]
-                elif x["k"] == "Assign" and x.get("op") == "/=":
-                    num, den = x["c"][0], x["c"][1]
-                if num is None:
-                    continue
-                kn = _root_name(num)
-                kd = None
-                for y in walk(den):
-                    if y["k"] == "DeclRefExpr" and _root_name(y) in counters:
-                        kd = _root_name(y)
-                if kn in sums and kd in counters:
-                    n += 1
-                    ok = sums[kn][1] == counters[kd][1]
-                    if not ok:
-                        chk.analysed(f)
-                    chk.ob("C18g", "%s: `%s` and the counter `%s` it is divided by are updated behind the same guards" % (f.name, kn[2], kd[2]), f.loc(x), ok,
-                           detail=None if ok else "the sum is updated after the guards {%s}, the counter after {%s}: the count is not the number of samples that "
-                           "entered the sum (masked / incomplete samples are counted)" % ("; ".join(sums[kn][1]) or "none", "; ".join(counters[kd][1]) or "none"),
-                           key="C18g|%s|%s/%s" % (f.name, kn[2], kd[2]), nontrivial=True)
-    chk.floor("C18g", n, 2)
+    import c05_skip
+    c05_skip.guard_agreement_rule(prog, chk, "C18g", ("src/Stats/PCA.cpp", "src/Anamorphosis/AnamHermite.cpp", "src/Anamorphosis/AnamEmpirical.cpp"), 2)
     import copyrule
     ncp = copyrule.copy_agreement(prog, chk, "C18f", classes=[c for c in prog.classes if c in ("PCA", "AnamHermite", "AnamEmpirical", "AnamContinuous", "Interval")])
     chk.floor("C18f", ncp, 3)
